@@ -10,6 +10,9 @@ R8.3 no short-circuit: the operator is not read before the loop's exit edge; Ope
 R8.4 op-assign order inside eval_mut: read X, compute, write X (dominance chain) - shared with C04 R4.4;
 R8.5 Context::call_function is invoked once per FunctionIdentifier evaluation with arguments[0] - shared with C09 R9.1;
      effects persist: the mutable path neither clones nor restores the context.
+R8.6 operator application is strict in both operands (no value-level short-circuit): for every binary operator other than
+     ==/!= (which accept every type), an operand of a type the operator accepts nowhere (Value::Empty) makes every path of
+     Operator::eval end in an error, whatever the type or value of the other operand and in either position.
 """
 import tables
 from absint import Interp, SYM, C, ADT, OK, ERR, fmt, is_adt, Budget
@@ -19,7 +22,7 @@ from mirlib import (short, path_endswith, callee_matches, op_place, resolve_plac
 EXPLANATION = ('path/dominance rules over the MIR of the two recursive evaluators: loop shape (slice iterator over self.children()), single recursive call site under `?`, '
                'operator consulted only after the loop exit edge, accepted-callee list; op-assign read-compute-write dominance chain in Operator::eval_mut')
 
-ACCEPTED = {'new', 'children', 'into_iter', 'next', 'branch', 'from_residual', 'push', 'operator', 'deref', 'eval', 'eval_mut', 'eval_with_context', 'eval_with_context_mut', 'iter'}
+ACCEPTED = {'new', 'with_capacity', 'len', 'children', 'into_iter', 'next', 'branch', 'from_residual', 'push', 'operator', 'deref', 'eval', 'eval_mut', 'eval_with_context', 'eval_with_context_mut', 'iter'}
 
 
 def run(ctx):
@@ -33,6 +36,7 @@ def run(ctx):
         evaluator(ctx, prog, f, name, opname)
     r84(ctx, prog)
     r85(ctx, prog)
+    r86(ctx, prog)
 
 
 def evaluator(ctx, prog, f, name, opname):
@@ -54,16 +58,23 @@ def evaluator(ctx, prog, f, name, opname):
     it_place = resolve_place(f, op_place(nt['args'][0]))
     # provenance of the iterator local: into_iter(children(self)) [or children(self).iter()]
     roots = def_roots(f, it_place['l']) if is_local(it_place) or not it_place['p'] else []
-    prov_ok = False
-    for r in roots:
-        if r[1] == 'term' and r[2]['callee']['name'] in ('into_iter', 'iter'):
-            src = op_place(r[2]['args'][0])
-            rr = def_roots(f, resolve_place(f, src)['l'])
-            for q in rr:
-                if q[1] == 'term' and callee_matches(q[2], ['tree::Node::<NumericTypes>::children']):
-                    recv = resolve_place(f, op_place(q[2]['args'][0]))
-                    if recv['l'] == 1:
-                        prov_ok = True
+    def source_ok(local, depth=4):
+        """the iterator value in `local` comes from `self.children()` / `self.children` through iter()/into_iter() only"""
+        rs = def_roots(f, local)
+        if len(rs) != 1 or rs[0][1] != 'term' or depth == 0:
+            return False
+        t = rs[0][2]
+        nm = t['callee']['name']
+        if callee_matches(t, ['tree::Node::<NumericTypes>::children']):
+            recv = resolve_place(f, op_place(t['args'][0]))
+            return recv['l'] == 1
+        if nm in ('into_iter', 'iter') and len(t['args']) == 1:
+            rsrc = resolve_place(f, op_place(t['args'][0]))
+            if rsrc['l'] == 1 and any(isinstance(p_, dict) and p_.get('name') == 'children' for p_ in rsrc['p']):
+                return True
+            return source_ok(rsrc['l'], depth - 1)
+        return False
+    prov_ok = source_ok(it_place['l']) if not it_place['p'] else False
     ctx.check(prov_ok and len(roots) == 1, 'R8.1', inst + ':iterator-source', 'source', 'the iterator is obtained directly from self.children() (no adaptor in between)', span=nt['span'])
     # loop structure: next block's result switch: Some edge leads to the recursive call, None edge leaves the loop
     sw = switch_on_discriminant(f, nt['target'])
@@ -174,3 +185,31 @@ def r85(ctx, prog):
         return
     cf = [(b, t) for b, t in f.calls() if t['callee']['name'] == 'call_function' and path_endswith(t['callee'].get('trait') or '', 'context::Context')]
     ctx.check(len(cf) == 1, 'R8.5', 'Operator::eval:call_function', 'count', 'Context::call_function has exactly one call site (the FunctionIdentifier arm; its single invocation per evaluation is decided by C09 R9.1)', span=f.span)
+
+
+def r86(ctx, prog):
+    from rules.c03 import make_runner
+    f = prog.fn('operator::Operator::<NumericTypes>::eval')
+    if f is None:
+        ctx.unrecognised('R8.6', 'Operator::eval', 'missing', 'not found')
+        return
+    op, val, types, V, F, run_arm = make_runner(prog, f)
+    n = 0
+    for k in tables.BINARY:
+        if k in ('Eq', 'Neq'):
+            continue
+        for pos in (0, 1):
+            for other in types:
+                operands = [V(other, 'a'), V(other, 'b')]
+                operands[pos] = V('Empty', 'e')
+                inst = '%s[%s]' % (k, ','.join('Empty' if i == pos else other for i in (0, 1)))
+                try:
+                    ps = run_arm(k, operands)
+                except Budget:
+                    ctx.unrecognised('R8.6', inst, 'budget', 'arm too complex', span=f.span)
+                    continue
+                n += 1
+                rets = [p[0] for p in ps]
+                ctx.check(len(ps) >= 1 and all(is_adt(r, 'result::Result', 'Err') for r in rets), 'R8.6', inst, 'strict',
+                          'an unacceptable operand in position %d is reported on every path, whatever the other operand is (found %s)' % (pos, [fmt(r)[:80] for r in rets]), span=f.span)
+    ctx.floor('R8.6', 'strictness_cases', n, 12 * 2 * 6)
